@@ -230,8 +230,10 @@ func runSyncer(prop, tier string, r *rng) {
 		}
 		appendRaceCase(prop, 20, 30)
 		if os.Getenv("VERIF_NO_EMPTIEDWINDOW") == "" {
-			emptiedWindowCase(prop, 20, 23)
-			emptiedWindowCase(prop, 10, 30)
+			emptiedWindowCase(prop, 20, 23, 24)
+			emptiedWindowCase(prop, 10, 30, 31)
+			emptiedWindowCase(prop, 20, 24, 24) // the same head learned twice: the late one equals the store head
+			emptiedWindowCase(prop, 20, 22, 25)
 		}
 		if os.Getenv("VERIF_NO_ADDRACE") == "" {
 			addRaceCase(prop)
@@ -685,7 +687,7 @@ func restartSyncCase(prop string) {
 // pending range; it is stopped right there (hook `sync.removed`), before it looks at the pending set again. The handler
 // goes on and puts `a` into the - now empty - pending set; then the loop goes on. Nothing may crash, and the end
 // state is the target, finished, error-free.
-func emptiedWindowCase(prop string, storeTo, a int) {
+func emptiedWindowCase(prop string, storeTo, a, b int) {
 	ctx := context.Background()
 	run := newSyncRun(storeTo)
 	run.s.VerifSetPolicy(100*time.Hour, time.Second, time.Millisecond) // the stored head is never "recent": Head() asks the network
@@ -696,7 +698,7 @@ func emptiedWindowCase(prop string, storeTo, a int) {
 	err := run.s.Start(sctx)
 	cancel()
 	if err != nil {
-		emit("%s kind=emptiedwindow store=%d a=%d => start=err", prop, storeTo, a)
+		emit("%s kind=emptiedwindow store=%d a=%d b=%d => start=err", prop, storeTo, a, b)
 		return
 	}
 	run.quiesce()
@@ -727,7 +729,7 @@ func emptiedWindowCase(prop string, storeTo, a int) {
 		parked = "no"
 	}
 	armed.Store(true)
-	cur.Store(run.chain[a]) // the network head is a+1
+	cur.Store(run.chain[b-1]) // the network head is b (a+1, or a itself: the same head learned twice)
 	hdone := make(chan string, 1)
 	go func() {
 		hctx, cancelH := context.WithTimeout(ctx, 10*time.Second)
@@ -756,9 +758,14 @@ func emptiedWindowCase(prop string, storeTo, a int) {
 	case <-time.After(5 * time.Second):
 	}
 	armed.Store(false)
+	// a later head leaving a gap is learned while the loop still sits there (before it consumes the late wake-up)
+	later := "refuse"
+	if err := run.sub.verifier(ctx, run.chain[b+2]); err == nil {
+		later = "accept"
+	}
 	close(loopGo)
 	run.quiesce()
-	emit("%s kind=emptiedwindow store=%d a=%d => start=ok parked=%s loop=%s gossip=%s head1=%s %s", prop, storeTo, a, parked, lp, gres, hres, run.observe())
+	emit("%s kind=emptiedwindow store=%d a=%d b=%d => start=ok parked=%s loop=%s gossip=%s head1=%s later=%s %s", prop, storeTo, a, b, parked, lp, gres, hres, later, run.observe())
 	_ = run.s.Stop(ctx)
 	c2, cancel3 := context.WithTimeout(ctx, time.Second)
 	_ = run.st.Stop(c2)
